@@ -231,6 +231,53 @@ def check_truncate(kind):
     return check
 
 
+def check_truncate_codec(case, ctx):
+    """bz2 / lz4 / zstd: how much plaintext a truncated file still yields is codec specific, so the oracle is the
+    weaker half of the statement: whatever is yielded is an unmodified, in-order PREFIX of the records written, and
+    the complete file yields all of them without error."""
+    from flow.record import RecordReader, RecordWriter
+
+    records, obs_full = _build(case, ctx)
+    if records is None:
+        return
+    codec = case["codec"]
+    tmp = ctx.fresh_dir()
+    try:
+        p = os.path.join(tmp, "s.records." + codec)
+        w = RecordWriter(p)
+        for r, fl in zip(records, case["flush"]):
+            w.write(r)
+            if fl:
+                w.flush()
+        w.flush()
+        w.close()
+        data = open(p, "rb").read()
+        ctx.cls("codec:" + codec)
+        cuts = range(len(data) + 1) if len(data) <= 1500 else sorted(set(range(0, len(data) + 1, max(1, len(data) // 200))) | {len(data)})
+        for cut in cuts:
+            trunc = data[:cut]
+            got, exc = _read_prefix(lambda: RecordReader(fileobj=io.BytesIO(trunc)))
+            ctx.count(1)
+            if cut < len(data):
+                ctx.nontriv(cut)
+            if len(got) > len(obs_full):
+                raise Violation("%s/cut/yielded-more" % codec, "cut %d of %d: %d records yielded, %d written" % (cut, len(data), len(got), len(obs_full)))
+            for i, r in enumerate(got):
+                if observe(r) != obs_full[i]:
+                    raise Violation("%s/cut/altered-record" % codec, "cut %d: record %d altered: %s" % (cut, i, diff(obs_full[i], observe(r))))
+            if cut == len(data) and (exc is not None or len(got) != len(obs_full)):
+                raise Violation("%s/complete-file" % codec, "complete file: %d of %d records, exception %r" % (len(got), len(obs_full), exc))
+    finally:
+        shutil.rmtree(tmp, ignore_errors=True)
+
+
+@st.composite
+def codec_stream_spec(draw):
+    c = draw(stream_spec())
+    c["codec"] = draw(st.sampled_from(["bz2", "lz4", "zst"]))
+    return c
+
+
 def check_write_fault(case, ctx):
     from flow.record import RecordReader, RecordStreamReader
 
@@ -275,4 +322,5 @@ def parts(tier):
         Part("truncate-raw", check_truncate("raw"), strategy=stream_spec(), examples=(30, 600), exhaustive=False),
         Part("truncate-gz", check_truncate("gz"), strategy=stream_spec(), examples=(20, 400)),
         Part("write-fault", check_write_fault, strategy=stream_spec(), examples=(16, 300)),
+        Part("truncate-bz2-lz4-zstd", check_truncate_codec, strategy=codec_stream_spec(), examples=(6, 150)),
     ]
